@@ -11,6 +11,30 @@ def run(tier, seed):
     v = lib.Verdict(PID, tier, seed, "exploration")
     thorough = tier == "thorough"
     sc, vp, recs, unenc = E.check_and_gen(PID, "D2" if thorough else "D1", "D2", False, thorough)
+    # representation variants the term type offers for the same value: a non-empty binary held as a bit string with 8 bits in its
+    # last byte, the empty list held as a list without elements (same denotation; the library may encode them differently, the
+    # bytes must still be valid and denote the value)
+    import copy
+    extra = []
+    for rec in recs:
+        if len(json.dumps(rec["v"])) > 4000:
+            continue
+        for kind in ("bits8", "list"):
+            v2 = copy.deepcopy(rec["v"])
+            hit = None
+            for n in E.walk(v2):
+                if kind == "bits8" and n.get("k") == "bin" and n.get("b") and "rep" not in n:
+                    hit = n
+                    break
+                if kind == "list" and n.get("k") == "nil" and "rep" not in n:
+                    hit = n
+                    break
+            if hit is not None:
+                hit["rep"] = kind
+                extra.append({**rec, "id": f"{rec['id']}~{kind}", "v": v2, "alts": []})
+    if extra:
+        recs = recs + extra
+        lib.write_ndjson(vp, recs + unenc)
     obs = E.run_obs(PID, vp, {"borrowed": False, "seed": seed, "history": True, "history_enc": True})
     hist = [o for o in obs if o["id"] == "__history__"]
     obs = [o for o in obs if o["id"] != "__history__"]
